@@ -1,18 +1,885 @@
-// placeholder while the dependency packages compile (replaced by the real driver)
+// Driver for C14: the real felix/bpf/conntrack Scanner + LivenessScanner run over felix/bpf/mock maps
+// that are wrapped with a GATE at every map operation (iteration start, every iteration callback, Get,
+// Update, Delete on the conntrack map and on the cleanup-queue map).  The scanner runs in its own
+// goroutine but only ever moves when the scheduler (main goroutine) grants its pending operation, so
+// the whole run is serialised and deterministic: between two granted operations the scheduler injects
+// packets (entry.last_seen := now, or re-creation of a removed entry) and clock ticks exactly where the
+// behaviour (TLC-generated schedule or seeded random schedule) says.
+//
+// The kernel-side cleaner (bpf-gpl/conntrack_cleanup.c) cannot be executed here.  The `Cleaner` handed
+// to the Scanner is a Go transcription of process_ccq_entry that works on the same wrapped maps, step by
+// step under the gate.  It is harness code: the kernel cleaner is bound by transcription only.
+//
+// Go only executes, records and converts syntax: whether an entry "was expired" is never decided here;
+// every event carries the raw fields (type, protocol, TCP flag bits of both legs, last_seen, clock) and
+// the TLA+ trace spec judges.
 package main
 
 import (
+	"encoding/binary"
 	"fmt"
+	"math/rand"
+	"net"
+	"os"
+	"runtime"
+	"sort"
+	"time"
+
+	"github.com/sirupsen/logrus"
 
 	"github.com/projectcalico/calico/felix/bpf/conntrack"
 	"github.com/projectcalico/calico/felix/bpf/conntrack/timeouts"
+	v4 "github.com/projectcalico/calico/felix/bpf/conntrack/v4"
+	"github.com/projectcalico/calico/felix/bpf/maps"
 	"github.com/projectcalico/calico/felix/bpf/mock"
 	"github.com/projectcalico/calico/felix/timeshim"
+
+	"verifharness/tracelog"
 )
 
-var _ timeshim.Interface
+const nsPerSec = int64(time.Second)
+
+// ---------------------------------------------------------------------------------------------
+// logical clock (timeshim.Interface): whole seconds
+// ---------------------------------------------------------------------------------------------
+
+type clock struct{ sec int64 }
+
+var goEpoch = time.Date(2020, 1, 1, 0, 0, 0, 0, time.UTC)
+
+func (c *clock) Now() time.Time                         { return goEpoch.Add(time.Duration(c.sec) * time.Second) }
+func (c *clock) Since(t time.Time) time.Duration        { return c.Now().Sub(t) }
+func (c *clock) Until(t time.Time) time.Duration        { return t.Sub(c.Now()) }
+func (c *clock) After(d time.Duration) <-chan time.Time { panic("clock.After not expected") }
+func (c *clock) NewTimer(d timeshim.Duration) timeshim.Timer {
+	panic("clock.NewTimer not expected")
+}
+func (c *clock) KTimeNanos() int64 { return c.sec * nsPerSec }
+
+var _ timeshim.Interface = (*clock)(nil)
+
+// ---------------------------------------------------------------------------------------------
+// entries
+// ---------------------------------------------------------------------------------------------
+
+// ent is the syntactic description of one conntrack entry (what the behaviour gives / what is logged).
+type ent struct {
+	Ty  int    // 0 normal, 1 NAT forward, 2 NAT reverse
+	Pr  int    // IP protocol
+	A   int    // leg A->B flag bits: syn=1 ack=2 fin=4 rst=8
+	B   int    // leg B->A
+	Dsr bool   // FlagNATFwdDsr
+	Rr  bool   // value.RSTSeen() != 0
+	Ls  int    // last_seen, seconds
+	Rev string // NAT forward: name of the reverse key
+	Ex  bool
+}
+
+func legOf(bits int) conntrack.Leg {
+	return conntrack.Leg{SynSeen: bits&1 != 0, AckSeen: bits&2 != 0, FinSeen: bits&4 != 0, RstSeen: bits&8 != 0}
+}
+
+func bitsOf(l v4.Leg) int {
+	b := 0
+	if l.SynSeen {
+		b |= 1
+	}
+	if l.AckSeen {
+		b |= 2
+	}
+	if l.FinSeen {
+		b |= 4
+	}
+	if l.RstSeen {
+		b |= 8
+	}
+	return b
+}
+
+type drv struct {
+	log   *tracelog.Log
+	clk   *clock
+	ct    *mock.Map
+	ccq   *mock.Map
+	names map[conntrack.Key]string
+	keys  map[string]conntrack.Key
+	order []string       // all key names, sorted
+	tmpl  map[string]ent // template (type/proto/state) used when a packet re-creates an entry
+	rnd   *rand.Rand     // non-nil: random choice of iteration order
+	split bool           // cleaner: gate at every lookup / compare / delete
+	clMut string         // harness-side cleaner mutant (selftest demonstration only)
+	race  bool           // allow reverse-direction packets on pairs with equal timestamps (finding F1)
+
+	arrive  chan gateOp
+	grantc  chan grant
+	pending gateOp
+	scans   int // completed scans
+}
+
+type gateOp struct {
+	kind string
+	done bool // the thread has terminated
+}
+type grant struct {
+	k    string
+	exp  string
+	exit bool
+}
+
+func (d *drv) keyName(k []byte) string {
+	var kk conntrack.Key
+	copy(kk[:], k)
+	if n, ok := d.names[kk]; ok {
+		return n
+	}
+	if kk == (conntrack.Key{}) {
+		return ""
+	}
+	return fmt.Sprintf("?%x", k)
+}
+
+func secOf(ns int64) int {
+	if ns%nsPerSec != 0 || ns < 0 || ns/nsPerSec > 1<<30 {
+		return -1 // not a value the harness ever writes; never equal to a real last_seen
+	}
+	return int(ns / nsPerSec)
+}
+
+func (d *drv) mkKey(i int, proto int) conntrack.Key {
+	return conntrack.NewKey(uint8(proto), net.IPv4(10, 0, byte(i/200), byte(i%200+1)), uint16(1000+i), net.IPv4(10, 1, 0, 1), 80)
+}
+
+func (d *drv) mkValue(e ent) conntrack.Value {
+	ls := time.Duration(int64(e.Ls) * nsPerSec)
+	var flags uint32
+	if e.Dsr {
+		flags |= v4.FlagNATFwdDsr
+	}
+	var v conntrack.Value
+	switch e.Ty {
+	case 0:
+		v = conntrack.NewValueNormal(ls, flags, legOf(e.A), legOf(e.B))
+	case 1:
+		v = conntrack.NewValueNATForward(ls, flags, d.keys[e.Rev])
+	default:
+		v = conntrack.NewValueNATReverse(ls, flags, legOf(e.A), legOf(e.B), net.IPv4(0, 0, 0, 0), net.IPv4(10, 96, 0, 1), 80)
+	}
+	if e.Rr {
+		binary.LittleEndian.PutUint64(v[v4.VoRSTSeen:v4.VoRSTSeen+8], uint64(ls))
+	}
+	return v
+}
+
+// rec converts a stored value into the logged record (pure syntax: field extraction).
+func (d *drv) rec(k, vb []byte) map[string]any {
+	kk := conntrack.KeyFromBytes(k)
+	v := conntrack.ValueFromBytes(vb)
+	r := map[string]any{"ex": true, "ty": int(v.Type()), "pr": int(kk.Proto()), "ls": secOf(v.LastSeen()),
+		"dsr": v.Flags()&v4.FlagNATFwdDsr != 0, "rr": v.RSTSeen() != 0, "a": 0, "b": 0, "rev": ""}
+	if v.Type() == conntrack.TypeNATForward {
+		r["rev"] = d.keyName(v.ReverseNATKey().AsBytes())
+	} else {
+		data := v.Data()
+		r["a"] = bitsOf(data.A2B)
+		r["b"] = bitsOf(data.B2A)
+	}
+	return r
+}
+
+func (d *drv) ctContents() map[string]any {
+	out := map[string]any{}
+	for ks, vs := range d.ct.Contents {
+		out[d.keyName([]byte(ks))] = d.rec([]byte(ks), []byte(vs))
+	}
+	return out
+}
+
+// ---------------------------------------------------------------------------------------------
+// the gate
+// ---------------------------------------------------------------------------------------------
+
+// gate is called by the scanner thread immediately before a map operation.
+func (d *drv) gate(kind string) grant {
+	d.arrive <- gateOp{kind: kind}
+	g := <-d.grantc
+	if g.exit {
+		runtime.Goexit()
+	}
+	return g
+}
+
+// emitOp logs an event of the scanner thread; `exp` is the operation kind the schedule expected
+// (empty when the schedule does not say), so that drift between I_CT and the real code is measurable.
+func (d *drv) emitOp(ev string, g grant, f map[string]any) {
+	if f == nil {
+		f = map[string]any{}
+	}
+	if g.exp != "" {
+		f["exp"] = g.exp
+	}
+	d.log.Emit(ev, f)
+}
+
+// advance grants the pending operation and waits until the thread is blocked at its next one.
+func (d *drv) advance(k, exp string) {
+	if d.pending.done {
+		return
+	}
+	d.grantc <- grant{k: k, exp: exp}
+	d.pending = <-d.arrive
+}
+
+func (d *drv) stopThread() {
+	if d.pending.done {
+		return
+	}
+	d.grantc <- grant{exit: true}
+	d.pending = <-d.arrive
+}
+
+func (d *drv) pick(remaining []string, want string) int {
+	for i, n := range remaining {
+		if n == want {
+			return i
+		}
+	}
+	if d.rnd != nil {
+		return d.rnd.Intn(len(remaining))
+	}
+	return 0
+}
+
+// ---------------------------------------------------------------------------------------------
+// gated maps
+// ---------------------------------------------------------------------------------------------
+
+type gmap struct {
+	*mock.Map
+	d    *drv
+	isCT bool
+}
+
+func (m *gmap) snapshot() (names []string, ks, vs map[string][]byte) {
+	ks, vs = map[string][]byte{}, map[string][]byte{}
+	for k, v := range m.Map.Contents {
+		n := m.d.keyName([]byte(k))
+		names = append(names, n)
+		ks[n] = []byte(k)
+		vs[n] = []byte(v)
+	}
+	sort.Strings(names)
+	return
+}
+
+// Iter has the semantics of mock.Map.Iter (callbacks over a copy taken at the start; IterDelete removes
+// the key) with a deterministic, schedule-chosen order instead of Go's random map order.
+func (m *gmap) Iter(f maps.IterCallback) error {
+	d := m.d
+	if m.isCT {
+		g := d.gate("iter_begin")
+		names, ks, vs := m.snapshot()
+		d.emitOp("ct_iter_begin", g, map[string]any{"ents": d.ctContents()})
+		for len(names) > 0 {
+			g = d.gate("visit")
+			i := d.pick(names, g.k)
+			n := names[i]
+			names = append(names[:i:i], names[i+1:]...)
+			d.emitOp("ct_visit", g, map[string]any{"k": n, "v": d.rec(ks[n], vs[n])})
+			if f(ks[n], vs[n]) == maps.IterDelete {
+				g = d.gate("delete")
+				m.del(ks[n], "scanner", g)
+			}
+		}
+		return nil
+	}
+	g := d.gate("ccq_load")
+	names, ks, vs := m.snapshot()
+	d.emitOp("ccq_load", g, map[string]any{"n": len(names)})
+	for _, n := range names {
+		g = d.gate("ccq_visit")
+		d.emitOp("ccq_visit", g, map[string]any{"k": n})
+		if f(ks[n], vs[n]) == maps.IterDelete {
+			delete(m.Map.Contents, string(ks[n]))
+		}
+	}
+	return nil
+}
+
+func (m *gmap) Get(k []byte) ([]byte, error) {
+	d := m.d
+	g := d.gate("get")
+	v, err := m.Map.Get(k)
+	ev := "ccq_get"
+	if m.isCT {
+		ev = "ct_get"
+	}
+	f := map[string]any{"k": d.keyName(k), "found": err == nil}
+	if err == nil && m.isCT {
+		f["v"] = d.rec(k, v)
+	}
+	d.emitOp(ev, g, f)
+	return v, err
+}
+
+func (d *drv) qrec(k, v []byte) map[string]any {
+	cv := conntrack.CleanupValueFromBytes(v)
+	return map[string]any{"k": d.keyName(k), "rev": d.keyName(cv.OtherNATKey().AsBytes()),
+		"ts": secOf(int64(cv.Timestamp())), "rts": secOf(int64(cv.RevTimestamp()))}
+}
+
+func (m *gmap) Update(k, v []byte) error {
+	d := m.d
+	if m.isCT {
+		g := d.gate("update")
+		err := m.Map.Update(k, v)
+		d.emitOp("ct_update", g, map[string]any{"k": d.keyName(k), "v": d.rec(k, v)})
+		return err
+	}
+	g := d.gate("ccq_update")
+	err := m.Map.Update(k, v)
+	d.emitOp("ccq_update", g, d.qrec(k, v))
+	return err
+}
+
+func (m *gmap) BatchUpdate(ks, vs [][]byte, flags uint64) (int, error) {
+	for i := range ks {
+		if err := m.Update(ks[i], vs[i]); err != nil {
+			return i, err
+		}
+	}
+	return len(ks), nil
+}
+
+// del removes k from the conntrack map and logs the entry's last_seen at the moment of deletion.
+func (m *gmap) del(k []byte, by string, g grant) bool {
+	d := m.d
+	old, ok := m.Map.Contents[string(k)]
+	f := map[string]any{"k": d.keyName(k), "existed": ok, "ls": 0, "by": by}
+	if ok {
+		f["ls"] = secOf(conntrack.ValueFromBytes([]byte(old)).LastSeen())
+	}
+	_ = m.Map.Delete(k)
+	d.emitOp("ct_delete", g, f)
+	return ok
+}
+
+func (m *gmap) Delete(k []byte) error {
+	d := m.d
+	if m.isCT {
+		g := d.gate("delete")
+		m.del(k, "scanner", g)
+		return nil
+	}
+	g := d.gate("ccq_delete")
+	err := m.Map.Delete(k)
+	d.emitOp("ccq_delete", g, map[string]any{"k": d.keyName(k), "by": "scanner"})
+	return err
+}
+
+func (m *gmap) DeleteIfExists(k []byte) error { return m.Delete(k) }
+
+// ---------------------------------------------------------------------------------------------
+// the transcribed kernel cleaner (bpf-gpl/conntrack_cleanup.c)
+// ---------------------------------------------------------------------------------------------
+
+type cleaner struct {
+	d   *drv
+	ct  *gmap
+	ccq *gmap
+}
+
+func (c *cleaner) Close() error { return nil }
+
+// step is a gate point inside process_ccq_entry; in the default (atomic) mode only the first step of an
+// entry and the final queue delete are gate points.
+func (c *cleaner) step(kind string, g *grant) {
+	if c.d.split {
+		*g = c.d.gate(kind)
+	}
+}
+
+func (c *cleaner) lookup(k []byte, g grant) (conntrack.ValueInterface, bool) {
+	vb, ok := c.ct.Map.Contents[string(k)]
+	c.d.emitOp("ct_lookup", g, map[string]any{"k": c.d.keyName(k), "found": ok})
+	if !ok {
+		return nil, false
+	}
+	return conntrack.ValueFromBytes([]byte(vb)), true
+}
+
+// liveLastSeen reads last_seen through the pointer obtained by an earlier lookup: the live value if the
+// element is still there, otherwise the value it had when it was looked up.
+func (c *cleaner) liveLastSeen(k []byte, looked conntrack.ValueInterface) int64 {
+	if vb, ok := c.ct.Map.Contents[string(k)]; ok {
+		return conntrack.ValueFromBytes([]byte(vb)).LastSeen()
+	}
+	return looked.LastSeen()
+}
+
+// processCCQEntry transcribes process_ccq_entry() line by line.
+func (c *cleaner) processCCQEntry(key, value []byte, g grant, cleaned *uint64) {
+	d := c.d
+	val := conntrack.CleanupValueFromBytes(value)
+	revKey := val.OtherNATKey()
+	if revKey.Proto() == 0 { // if (!value->rev_key.protocol)
+		// actual_ct_value = cali_ct_lookup_elem(key);
+		actual, ok := c.lookup(key, g)
+		if ok {
+			c.step("cq_cmp", &g)
+			// if (actual_ct_value && (actual_ct_value->last_seen == value->last_seen))
+			same := uint64(c.liveLastSeen(key, actual)) == val.Timestamp()
+			d.emitOp("cq_compare", g, map[string]any{"k": d.keyName(key), "same": same})
+			if same || d.clMut == "nocmp" {
+				c.step("cq_delk", &g)
+				// if (!cali_ct_delete_elem(key)) ictx->num_cleaned++;
+				if c.ct.del(key, "cleaner", g) {
+					*cleaned++
+				}
+			}
+		}
+	} else {
+		// struct calico_ct_value *nat_fwd_value = cali_ct_lookup_elem(key);
+		fwd, ok := c.lookup(key, g)
+		if ok {
+			// if (__builtin_memcmp(nat_rev_key, rev_key, sizeof(struct calico_ct_key))) goto delete;
+			if fwd.ReverseNATKey() != revKey {
+				goto del
+			}
+		}
+		c.step("cq_cmpr", &g)
+		// struct calico_ct_value *rev_ct_value = cali_ct_lookup_elem(rev_key);
+		rev, rok := c.lookup(revKey.AsBytes(), g)
+		// if (rev_ct_value && (rev_ct_value->last_seen == value->rev_last_seen))
+		if rok {
+			same := uint64(rev.LastSeen()) == val.RevTimestamp()
+			d.emitOp("cq_compare", g, map[string]any{"k": d.keyName(revKey.AsBytes()), "same": same})
+			if same || d.clMut == "nocmp" {
+				c.step("cq_delr", &g)
+				if c.ct.del(revKey.AsBytes(), "cleaner", g) {
+					*cleaned++
+				}
+				c.step("cq_delf", &g)
+				if c.ct.del(key, "cleaner", g) {
+					*cleaned++
+				}
+			}
+		}
+	}
+del:
+	// cali_ccq_delete_elem(key);
+	g = d.gate("cq_del")
+	delete(c.ccq.Map.Contents, string(key))
+	d.emitOp("ccq_delete", g, map[string]any{"k": d.keyName(key), "by": "cleaner"})
+}
+
+// Run is bpf_for_each_map_elem(&CCQ_MAP_V, process_ccq_entry, &ictx, 0).
+func (c *cleaner) Run(opts ...conntrack.RunOpt) (*conntrack.CleanupContext, error) {
+	d := c.d
+	cr := &conntrack.CleanupContext{}
+	for _, o := range opts {
+		o(cr)
+	}
+	g := d.gate("cq_begin")
+	names, ks, vs := c.ccq.snapshot()
+	d.emitOp("cq_begin", g, map[string]any{"keys": append([]string{}, names...)})
+	for len(names) > 0 {
+		g = d.gate("cq_proc")
+		i := d.pick(names, g.k)
+		n := names[i]
+		names = append(names[:i:i], names[i+1:]...)
+		q := d.qrec(ks[n], vs[n])
+		d.emitOp("cq_visit", g, q)
+		c.processCCQEntry(ks[n], vs[n], g, &cr.NumKVsCleaned)
+	}
+	return cr, nil
+}
+
+// ---------------------------------------------------------------------------------------------
+// environment: packets, ticks
+// ---------------------------------------------------------------------------------------------
+
+func (d *drv) lastSeen(name string) (int64, bool) {
+	k := d.keys[name]
+	vb, ok := d.ct.Contents[string(k[:])]
+	if !ok {
+		return 0, false
+	}
+	return conntrack.ValueFromBytes([]byte(vb)).LastSeen(), true
+}
+
+// fresh: timestamps are strictly increasing per entry (see I_CT.Fresh)
+func (d *drv) fresh(name string) bool {
+	ls, ok := d.lastSeen(name)
+	return !ok || ls < d.clk.KTimeNanos()
+}
+
+// touch sets last_seen := now on an existing entry, or re-creates it from its template.
+func (d *drv) touch(name string, out map[string]any) {
+	k := d.keys[name]
+	now := d.clk.KTimeNanos()
+	if vb, ok := d.ct.Contents[string(k[:])]; ok {
+		b := []byte(vb)
+		binary.LittleEndian.PutUint64(b[v4.VoLastSeen:v4.VoLastSeen+8], uint64(now))
+		d.ct.Contents[string(k[:])] = string(b)
+	} else {
+		e := d.tmpl[name]
+		e.Ls = int(now / nsPerSec)
+		v := d.mkValue(e)
+		d.ct.Contents[string(k[:])] = string(v[:])
+	}
+	out[name] = d.rec(k[:], []byte(d.ct.Contents[string(k[:])]))
+}
+
+func (d *drv) packet(kind, name string, st map[string]any) {
+	t, ok := d.tmpl[name]
+	if !ok {
+		return
+	}
+	out := map[string]any{}
+	switch kind {
+	case "plain":
+		if t.Ty != 0 || !d.fresh(name) {
+			return
+		}
+		if st != nil { // a packet that also changes the connection state (random leg)
+			k := d.keys[name]
+			delete(d.ct.Contents, string(k[:]))
+			t.A, t.B = tracelog.Int(st["a"]), tracelog.Int(st["b"])
+			d.tmpl[name] = t
+		}
+		d.touch(name, out)
+	case "fwd":
+		if t.Ty != 1 || !d.fresh(name) || !d.fresh(t.Rev) {
+			return
+		}
+		d.touch(t.Rev, out)
+		d.touch(name, out)
+	case "rev":
+		if t.Ty != 2 || !d.fresh(name) {
+			return
+		}
+		rls, ok := d.lastSeen(name)
+		if !ok {
+			return
+		}
+		if !d.race {
+			for f, ft := range d.tmpl {
+				if ft.Ty == 1 && ft.Rev == name {
+					if fls, fok := d.lastSeen(f); fok && fls == rls {
+						return
+					}
+				}
+			}
+		}
+		d.touch(name, out)
+	default:
+		return
+	}
+	d.log.Emit("pkt", map[string]any{"kind": kind, "k": name, "ents": out})
+}
+
+func (d *drv) tick(sec int) {
+	d.clk.sec += int64(sec)
+	d.log.Emit("tick", map[string]any{"d": sec, "now": int(d.clk.sec)})
+}
+
+// ---------------------------------------------------------------------------------------------
+// one trace
+// ---------------------------------------------------------------------------------------------
+
+type initSpec struct {
+	now  int
+	to   map[string]int // syn est fin rst udp icmp gen (seconds)
+	ents map[string]ent
+}
+
+func (d *drv) start(t int, in initSpec) {
+	d.clk = &clock{sec: int64(in.now)}
+	d.ct = mock.NewMockMap(conntrack.MapParams)
+	d.ccq = mock.NewMockMap(conntrack.MapParamsCleanup)
+	d.names = map[conntrack.Key]string{}
+	d.keys = map[string]conntrack.Key{}
+	d.tmpl = map[string]ent{}
+	d.order = nil
+	for n := range in.ents {
+		d.order = append(d.order, n)
+	}
+	sort.Strings(d.order)
+	for i, n := range d.order {
+		k := d.mkKey(i, in.ents[n].Pr)
+		d.keys[n] = k
+		d.names[k] = n
+	}
+	for _, n := range d.order {
+		e := in.ents[n]
+		d.tmpl[n] = e
+		if e.Ex {
+			v := d.mkValue(e)
+			k := d.keys[n]
+			d.ct.Contents[string(k[:])] = string(v[:])
+		}
+	}
+	sec := func(n string) time.Duration { return time.Duration(in.to[n]) * time.Second }
+	tmo := timeouts.Timeouts{
+		CreationGracePeriod: 10 * time.Second,
+		TCPSynSent:          sec("syn"), TCPEstablished: sec("est"), TCPFinsSeen: sec("fin"), TCPResetSeen: sec("rst"),
+		UDPTimeout: sec("udp"), GenericTimeout: sec("gen"), ICMPTimeout: sec("icmp"),
+	}
+	to := map[string]any{"resid": 120} // the hard-coded 2 minutes of entryDone
+	for k, v := range in.to {
+		to[k] = v
+	}
+	d.log.Reset(t, map[string]any{"keys": d.order, "to": to, "now": in.now, "ents": d.ctContents()})
+
+	gct := &gmap{Map: d.ct, d: d, isCT: true}
+	gccq := &gmap{Map: d.ccq, d: d}
+	ls := conntrack.NewLivenessScanner(tmo, false, conntrack.WithTimeShim(d.clk))
+	sc := conntrack.NewScanner(gct, conntrack.KeyFromBytes, conntrack.ValueFromBytes, nil, "Disabled",
+		gccq, 4, &cleaner{d: d, ct: gct, ccq: gccq}, ls)
+	d.arrive = make(chan gateOp)
+	d.grantc = make(chan grant)
+	d.scans = 0
+	arrive := d.arrive
+	go func() {
+		defer func() { arrive <- gateOp{done: true} }()
+		for n := 1; ; n++ {
+			sc.Scan()
+			d.scans = n
+			d.log.Emit("scan_end", map[string]any{"n": n})
+		}
+	}()
+	d.pending = <-d.arrive
+}
+
+func (d *drv) step(op map[string]any) {
+	switch tracelog.Str(op["op"]) {
+	case "sc", "cl":
+		d.advance(tracelog.Str(op["k"]), tracelog.Str(op["x"]))
+	case "pkt":
+		var st map[string]any
+		if m, ok := op["st"].(map[string]any); ok {
+			st = m
+		}
+		d.packet(tracelog.Str(op["kind"]), tracelog.Str(op["k"]), st)
+	case "tick":
+		d.tick(tracelog.Int(op["d"]))
+	case "init", "end":
+	default:
+		panic("unknown op " + tracelog.Str(op["op"]))
+	}
+}
+
+// finish: the schedule is exhausted.  Complete the scan in progress, freeze the environment, let the
+// clock pass the scanner's 1 s time cache, run two full scans, report the final map, stop the thread.
+func (d *drv) finish() {
+	for d.pending.kind != "iter_begin" && !d.pending.done {
+		d.advance("", "")
+	}
+	d.tick(2)
+	target := d.scans + 2
+	for d.scans < target && !d.pending.done {
+		d.advance("", "")
+	}
+	d.log.Emit("final", map[string]any{"ents": d.ctContents(), "now": int(d.clk.sec), "scans": d.scans})
+	d.stopThread()
+}
+
+func entOf(m map[string]any) ent {
+	e := ent{Ty: tracelog.Int(m["ty"]), Pr: tracelog.Int(m["pr"]), A: tracelog.Int(m["a"]), B: tracelog.Int(m["b"]),
+		Ls: tracelog.Int(m["ls"]), Rev: tracelog.Str(m["rev"]), Ex: true}
+	if b, ok := m["dsr"].(bool); ok {
+		e.Dsr = b
+	}
+	if b, ok := m["rr"].(bool); ok {
+		e.Rr = b
+	}
+	if b, ok := m["ex"].(bool); ok {
+		e.Ex = b
+	}
+	return e
+}
+
+// behaviour: first record {op:"init", now, unit, to:{...}, ents:{name:{...}}}, then schedule steps.
+// `unit` scales all times of the behaviour (I_CT's abstract time unit -> seconds).
+func (d *drv) behaviour(t int, b []map[string]any) {
+	if len(b) == 0 || tracelog.Str(b[0]["op"]) != "init" {
+		panic("behaviour without init record")
+	}
+	unit := tracelog.Int(b[0]["unit"])
+	if unit == 0 {
+		unit = 1
+	}
+	in := initSpec{now: tracelog.Int(b[0]["now"]) * unit, to: map[string]int{}, ents: map[string]ent{}}
+	for k, v := range b[0]["to"].(map[string]any) {
+		if k != "resid" {
+			in.to[k] = tracelog.Int(v) * unit
+		}
+	}
+	for n, v := range b[0]["ents"].(map[string]any) {
+		e := entOf(v.(map[string]any))
+		e.Ls *= unit
+		in.ents[n] = e
+	}
+	d.rnd = nil
+	d.start(t, in)
+	for _, op := range b[1:] {
+		if tracelog.Str(op["op"]) == "tick" {
+			op = map[string]any{"op": "tick", "d": tracelog.Int(op["d"]) * unit}
+		}
+		d.step(op)
+	}
+	d.finish()
+}
+
+// ---------------------------------------------------------------------------------------------
+// seeded random traces over larger universes
+// ---------------------------------------------------------------------------------------------
+
+type class struct {
+	pr, a, b int
+	dsr, rr  bool
+	to       string // which timeout governs (only used to place initial ages near the boundary)
+}
+
+var plainClasses = []class{
+	{17, 0, 0, false, false, "udp"}, {1, 0, 0, false, false, "icmp"}, {47, 0, 0, false, false, "gen"},
+	{6, 1, 0, false, false, "syn"}, {6, 3, 1, false, false, "syn"}, {6, 3, 3, false, false, "est"},
+	{6, 7, 7, false, false, "fin"}, {6, 7, 3, false, false, "est"}, {6, 11, 3, false, false, "rst"},
+	{6, 3, 3, false, true, "est"}, {6, 1, 8, false, false, "rst"},
+}
+var revClasses = []class{
+	{6, 3, 3, false, false, "est"}, {17, 0, 0, false, false, "udp"}, {6, 1, 0, false, false, "syn"},
+	{6, 7, 7, false, false, "fin"}, {6, 7, 3, true, false, "fin"}, {6, 1, 0, true, false, "est"},
+	{6, 3, 3, false, true, "est"},
+}
+
+func (d *drv) random(t int, rnd *rand.Rand) {
+	to := map[string]int{"syn": 20, "est": 3600, "fin": 30, "rst": 40, "udp": 60, "gen": 600, "icmp": 5}
+	if rnd.Intn(3) > 0 {
+		for k := range to {
+			to[k] = 1 + rnd.Intn(6)
+		}
+		if rnd.Intn(2) == 0 {
+			to["est"] = 100 + rnd.Intn(100) // so that the 120 s residual-RST rule can matter
+		}
+	}
+	now := rnd.Intn(5000)
+	if rnd.Intn(4) == 0 {
+		now = rnd.Intn(4)
+	}
+	in := initSpec{now: now, to: to, ents: map[string]ent{}}
+	age := func(c class) int {
+		base := to[c.to]
+		if c.rr && rnd.Intn(2) == 0 {
+			base = 120
+		}
+		a := base + rnd.Intn(5) - 2
+		if rnd.Intn(4) == 0 {
+			a = rnd.Intn(base + 3)
+		}
+		if a < 0 {
+			a = 0
+		}
+		if a > now {
+			a = now
+		}
+		return a
+	}
+	np := 1 + rnd.Intn(5)
+	nn := rnd.Intn(4)
+	if os.Getenv("VERIF_CT_BIG") == "1" {
+		np, nn = 8+rnd.Intn(8), 3+rnd.Intn(4)
+	}
+	var plains, fwds, revs []string
+	for i := 0; i < np; i++ {
+		c := plainClasses[rnd.Intn(len(plainClasses))]
+		n := fmt.Sprintf("p%d", i+1)
+		in.ents[n] = ent{Ty: 0, Pr: c.pr, A: c.a, B: c.b, Dsr: c.dsr, Rr: c.rr, Ls: now - age(c), Ex: rnd.Intn(8) > 0}
+		plains = append(plains, n)
+	}
+	for i := 0; i < nn; i++ {
+		c := revClasses[rnd.Intn(len(revClasses))]
+		f, r := fmt.Sprintf("f%d", i+1), fmt.Sprintf("r%d", i+1)
+		rls := now - age(c)
+		fls := rls
+		switch rnd.Intn(4) {
+		case 0: // last packet in reverse direction
+			fls = rls - rnd.Intn(4)
+			if fls < 0 {
+				fls = 0
+			}
+		case 1:
+			fls = rnd.Intn(rls + 1)
+		}
+		ex := rnd.Intn(10)
+		in.ents[r] = ent{Ty: 2, Pr: c.pr, A: c.a, B: c.b, Dsr: c.dsr, Rr: c.rr, Ls: rls, Ex: ex != 0}
+		in.ents[f] = ent{Ty: 1, Pr: c.pr, Ls: fls, Rev: r, Ex: ex != 1}
+		fwds = append(fwds, f)
+		revs = append(revs, r)
+	}
+	d.rnd = rnd
+	d.start(t, in)
+	steps := 15 + rnd.Intn(60)
+	bias := rnd.Intn(3) // 0: scanner-heavy, 1: balanced, 2: environment-heavy
+	for i := 0; i < steps; i++ {
+		c := rnd.Intn(20)
+		lim := []int{15, 11, 7}[bias]
+		switch {
+		case c < lim:
+			d.advance("", "")
+		case c < lim+2:
+			ds := []int{1, 1, 2, 3, 5, 20, 40, 120, 3600}
+			n := len(ds)
+			if to["est"] < 3600 {
+				n = 5
+			}
+			d.tick(ds[rnd.Intn(n)])
+		default:
+			switch k := rnd.Intn(3); {
+			case k == 1 && len(fwds) > 0:
+				d.packet("fwd", fwds[rnd.Intn(len(fwds))], nil)
+			case k == 2 && len(revs) > 0:
+				d.packet("rev", revs[rnd.Intn(len(revs))], nil)
+			default:
+				n := plains[rnd.Intn(len(plains))]
+				var st map[string]any
+				if rnd.Intn(4) == 0 && d.tmpl[n].Pr == 6 {
+					c := plainClasses[3+rnd.Intn(8)]
+					st = map[string]any{"a": c.a, "b": c.b}
+				}
+				d.packet("plain", n, st)
+			}
+		}
+	}
+	d.finish()
+}
 
 func main() {
-	m := mock.NewMockMap(conntrack.MapParams)
-	fmt.Println(m.GetName(), timeouts.DefaultTimeouts())
+	logrus.SetLevel(logrus.ErrorLevel)
+	env := tracelog.GetEnv()
+	lg, err := tracelog.Open(env.OutPath)
+	if err != nil {
+		fmt.Fprintln(os.Stderr, err)
+		os.Exit(2)
+	}
+	d := &drv{log: lg, split: os.Getenv("VERIF_CT_SPLIT") == "1", clMut: os.Getenv("VERIF_CT_CLEANER"),
+		race: os.Getenv("VERIF_CT_REVRACE") == "1"}
+	behs, err := tracelog.LoadBehaviours(env.BehPath)
+	if err != nil {
+		fmt.Fprintln(os.Stderr, err)
+		os.Exit(2)
+	}
+	t := 0
+	for _, b := range behs {
+		t++
+		d.behaviour(t, b)
+	}
+	for i := 0; i < env.N; i++ {
+		t++
+		d.random(t, rand.New(rand.NewSource(env.Seed*1000003+int64(i))))
+	}
+	if err := lg.Close(); err != nil {
+		fmt.Fprintln(os.Stderr, err)
+		os.Exit(2)
+	}
 }
